@@ -23,6 +23,22 @@
 (* preimage or the HTLC times out.  MaxRetry > 0 makes a single-part send   *)
 (* a payment with automatic retries (Retry::Attempts): a failed attempt is  *)
 (* followed by a new HTLC over the next unused branch.                      *)
+(*                                                                         *)
+(* Outcomes: what send_payment_along_path may answer for every part of an  *)
+(* attempt at send time (pay_route_internal collects the answers,           *)
+(* handle_pay_route_err acts on them):                                      *)
+(*   "sent"  Ok: the update_add_htlc leaves A,                              *)
+(*   "wip"   Err(MonitorUpdateInProgress): the HTLC is in the channel, its  *)
+(*           monitor write is in flight (asynchronous persistence); the     *)
+(*           add leaves when the user reports the write complete            *)
+(*           (MComplete); the part stays in the payment's bookkeeping,      *)
+(*   "ref"   Err(ChannelUnavailable): refused by the first-hop channel      *)
+(*           (peer disconnected, amount outside the channel's limits): the  *)
+(*           part is removed, PaymentPathFailed (InitialSend) is queued and *)
+(*           what was refused is retried at once over an unused branch if   *)
+(*           retries are left (MppRetry for multi-part sends), otherwise    *)
+(*           the payment is abandoned: PaymentFailed once no part remains.  *)
+(* Bug # "none" plants a defect (spec mutants: TLC must report a deadlock). *)
 (***************************************************************************)
 EXTENDS PaySend, Json
 
@@ -34,7 +50,10 @@ CONSTANTS NP,          \* payment ids 1..NP (id p pays hash p)
           Idem,        \* IDEMPOTENCY_TIMEOUT_TICKS of the model
           MaxOps,      \* bound on the script length
           MaxRetry,    \* automatic retries of a single-part payment
-          Stale        \* restarts from a snapshot the monitors have overtaken
+          Stale,       \* restarts from a snapshot the monitors have overtaken
+          Outcomes,    \* subset of {"sent", "wip", "ref"}: the answers of the first-hop channels at send time
+          MppRetry,    \* set of retry counts of multi-part sends
+          Bug          \* "none" | "forget_wip" | "reuse_held"
 
 VARIABLES dst, dparts, dn, evq, ticks, saved, dirty, net, nextId, decided, paid,
           nDup, nRestart, nSend, obs, hist, quiet, nops,
@@ -61,7 +80,7 @@ MCInit ==
   /\ SInit
   /\ dst = [p \in P |-> "none"] /\ dparts = [p \in P |-> {}] /\ dn = [p \in P |-> 0]
   /\ evq = <<>> /\ ticks = [p \in P |-> 0] /\ saved = <<>> /\ dirty = TRUE
-  /\ net = [x \in P \X (1..K) |-> [loc |-> "no", id |-> 0, id2 |-> 0, origin |-> 0]]
+  /\ net = [x \in P \X (1..K) |-> [loc |-> "no", id |-> 0, id2 |-> 0, origin |-> 0, mult |-> 1]]
   /\ nextId = [c \in 1..(2 * K) |-> 0]
   /\ decided = [p \in P |-> "none"] /\ paid = 0
   /\ nDup = 0 /\ nRestart = 0 /\ nSend = [p \in P |-> 0]
@@ -78,14 +97,18 @@ MObs ==
   /\ obs # <<>>
   /\ LET o == Head(obs) IN
      CASE o.t = "open" -> SOpen(0..D, [n \in 0..D |-> Init0])
-       [] o.t = "send" -> SSend(0, o.p, o.p, o.n * Amt, o.n, o.fixed, o.res)
-       [] o.t = "add" -> SAdd(o.node, o.chan, o.id, o.hash, Amt)
+       [] o.t = "send" -> SSend(0, o.p, o.p, o.n * Amt, [i \in 1..o.n |-> i], o.fixed, o.handled, o.res)
+       [] o.t = "add" -> SAdd(o.node, o.chan, o.id, o.hash, o.mult * Amt)
+       [] o.t = "persist" -> SPersistInProgress(0, o.chan, o.id)
+       [] o.t = "complete" -> SPersistComplete(0, o.chan, o.id)
        [] o.t = "failmsg" -> SFailMsg(o.chan, o.adder, o.id)
        [] o.t = "resolve" -> SResolve(o.chan, 0, o.id, o.how)
        [] o.t = "claimcall" -> SClaimCall(o.hash)
        [] o.t = "evsent" -> SEvSent(0, o.p, o.p, TRUE, o.fee)
-       [] o.t = "evfailed" -> SEvFailed(0, o.p)
-       [] o.t = "evpathfailed" -> SEvPathFailed(0, o.p, o.p, o.blamed, FALSE, o.path)
+       \* (PaySend leaves open whether a PaymentFailed closes an earlier use of the id or the present one; the design
+       \* knows: the events queued when the id was accepted again belong to the earlier use)
+       [] o.t = "evfailed" -> SEvFailed(0, o.p) /\ (nRestart = 0 => ((pay'[o.p].owed < pay[o.p].owed) <=> o.old))
+       [] o.t = "evpathfailed" -> SEvPathFailed(0, o.p, o.p, o.blamed, o.initial, o.path)
        [] o.t = "evother" -> UNCHANGED svars
        [] o.t = "save" -> SSave(0)
        [] o.t = "restart" -> SRestart(0, o.stale)
@@ -104,34 +127,95 @@ MObs ==
 Emit(seq) == obs' = seq /\ UNCHANGED svars
 
 \* ---------------------------------------------------------------- the user
-Retries(n) == IF n = 1 THEN MaxRetry ELSE 0
-MSend(p, n) ==
+RetryChoices(n) == IF n = 1 THEN {MaxRetry} ELSE MppRetry
+RECURSIVE CatTo(_, _)
+CatTo(f, i) == IF i = 0 THEN <<>> ELSE CatTo(f, i - 1) \o f[i]
+InitFail(p, k) == [k |-> "pathfailed", p |-> p, blamed |-> k, path |-> Path(k), initial |-> TRUE]
+\* what leaves A / what A's persister says when a part is handed to branch k with answer oc
+PartObs(p, k, oc, id, mult) ==
+  IF oc = "sent" THEN <<[t |-> "add", node |-> 0, chan |-> k, id |-> id, hash |-> p, mult |-> mult]>>
+  ELSE IF oc = "wip" THEN <<[t |-> "persist", chan |-> k, id |-> id]>> ELSE <<>>
+\* handle_pay_route_err -> find_route_and_send_payment: what was refused is retried at once, as one part, over the
+\* cheapest unused branch (the highest one); roc: the answer of that branch (a second immediate retry is sent)
+RECURSIVE Chain(_, _, _, _, _)
+Chain(p, free, rl, roc, first) ==      \* -> [evs, part (0: gave up), oc, rl]
+  IF rl = 0 \/ free = {} THEN [evs |-> <<>>, part |-> 0, oc |-> "none", rl |-> rl]
+  ELSE LET j == MaxOf(free)
+           oc == IF first THEN roc ELSE "sent"
+       IN IF oc = "ref"
+          THEN LET r == Chain(p, free \ {j}, rl - 1, roc, FALSE) IN [r EXCEPT !.evs = <<InitFail(p, j)>> \o @]
+          ELSE [evs |-> <<>>, part |-> j, oc |-> oc, rl |-> rl - 1]
+
+MSend(p, n, ocs, r, roc) ==
   /\ Idle /\ nSend[p] < MaxSend /\ n \in 1..K /\ closed = {}
+  /\ ocs \in [1..n -> Outcomes] /\ r \in RetryChoices(n) /\ roc \in Outcomes
   /\ nSend' = [nSend EXCEPT ![p] = @ + 1]
-  /\ IF dst[p] \in {"none", "gone"}
-     THEN /\ dst' = [dst EXCEPT ![p] = "retry"]
-          /\ dparts' = [dparts EXCEPT ![p] = 1..n]
-          /\ dn' = [dn EXCEPT ![p] = n]
-          /\ ticks' = [ticks EXCEPT ![p] = 0]
-          /\ decided' = [decided EXCEPT ![p] = "none"]
-          /\ net' = [x \in DOMAIN net |-> IF x[1] = p /\ x[2] <= n
-                                          THEN [loc |-> "out", id |-> nextId[x[2]], id2 |-> 0, origin |-> 0]
-                                          ELSE IF x[1] = p THEN [net[x] EXCEPT !.loc = "no"] ELSE net[x]]
-          /\ nextId' = [c \in DOMAIN nextId |-> IF c <= n THEN nextId[c] + 1 ELSE nextId[c]]
-          /\ dirty' = TRUE /\ dch' = dch \cup (1..n)
-          /\ rleft' = [rleft EXCEPT ![p] = Retries(n)]
-          /\ Emit(<<[t |-> "send", p |-> p, n |-> n, fixed |-> Retries(n) = 0, res |-> "ok"]>>
-                  \o [k \in 1..n |-> [t |-> "add", node |-> 0, chan |-> k, id |-> nextId[k], hash |-> p]])
-          /\ UNCHANGED <<evq, saved, paid, nDup, nRestart, closed, confirmed, sentSince>>
-     ELSE /\ Emit(<<[t |-> "send", p |-> p, n |-> n, fixed |-> Retries(n) = 0, res |-> "dup"]>>)
-          /\ UNCHANGED <<dst, dparts, dn, evq, ticks, saved, dirty, net, nextId, decided, paid, nDup, nRestart, xvars>>
-  /\ H([op |-> "send", p |-> p, n |-> n, retries |-> Retries(n)]) /\ quiet' = FALSE /\ F(IF dst[p] \in {"none", "gone"} THEN {} ELSE {"send-refused"})
+  /\ LET R == {k \in 1..n : ocs[k] = "ref"}
+         free == (n + 1)..K
+         retried == R # {} /\ r > 0 /\ free # {}
+         ch == IF R = {} THEN [evs |-> <<>>, part |-> 0, oc |-> "none", rl |-> r] ELSE Chain(p, free, r, roc, TRUE)
+         \* a route the user chose (its router's answer to the first query); otherwise routed by the payer's router
+         planted == n > 1 \/ ocs[1] # "sent"
+         \* add_new_pending_payment knows every part; remove_session_privs forgets the refused ones
+         keep == IF Bug = "forget_wip" /\ R # {} THEN {k \in 1..n : ocs[k] = "sent"} ELSE {k \in 1..n : ocs[k] # "ref"}
+         parts == keep \cup (IF ch.part # 0 THEN {ch.part} ELSE {})
+         gaveUp == R # {} /\ ch.part = 0
+         accepted == \/ dst[p] \in {"none", "gone"}
+                     \/ Bug = "reuse_held" /\ dst[p] = "aband" /\ \A k \in dparts[p] : net[<<p, k>>].loc = "wip"
+         op == [op |-> "send", p |-> p, n |-> n, retries |-> r, ocs |-> ocs, roc |-> roc, planted |-> planted]
+     IN
+     /\ (~retried) => roc = "sent"          \* (canonical: the answer of a retry that is not sent is not chosen)
+     /\ IF accepted
+        THEN /\ dst' = [dst EXCEPT ![p] = IF gaveUp THEN (IF parts = {} THEN "gone" ELSE "aband") ELSE "retry"]
+             /\ dparts' = [dparts EXCEPT ![p] = parts]
+             /\ dn' = [dn EXCEPT ![p] = n]
+             /\ ticks' = [ticks EXCEPT ![p] = 0]
+             /\ decided' = [decided EXCEPT ![p] = "none"]
+             /\ net' = [x \in DOMAIN net |->
+                          IF x[1] = p /\ x[2] <= n /\ ocs[x[2]] # "ref"
+                          THEN [loc |-> IF ocs[x[2]] = "sent" THEN "out" ELSE "wip", id |-> nextId[x[2]], id2 |-> 0, origin |-> 0, mult |-> 1]
+                          ELSE IF x[1] = p /\ x[2] = ch.part
+                          THEN [loc |-> IF ch.oc = "sent" THEN "out" ELSE "wip", id |-> nextId[x[2]], id2 |-> 0, origin |-> 0, mult |-> Cardinality(R)]
+                          ELSE IF x[1] = p /\ x[2] <= n THEN [net[x] EXCEPT !.loc = "refd"]      \* (previously_failed_channels)
+                          ELSE IF x[1] = p THEN [net[x] EXCEPT !.loc = "no"] ELSE net[x]]
+             /\ nextId' = [c \in DOMAIN nextId |-> IF (c <= n /\ ocs[c] # "ref") \/ c = ch.part THEN nextId[c] + 1 ELSE nextId[c]]
+             /\ dirty' = TRUE /\ dch' = dch \cup {k \in 1..n : ocs[k] # "ref"} \cup (IF ch.part # 0 THEN {ch.part} ELSE {})
+             /\ rleft' = [rleft EXCEPT ![p] = IF gaveUp THEN 0 ELSE ch.rl]
+             /\ evq' = [i \in 1..Len(evq) |-> IF evq[i].k = "failed" /\ evq[i].p = p THEN [evq[i] EXCEPT !.old = TRUE] ELSE evq[i]]
+                           \o CatTo([k \in 1..n |-> IF ocs[k] = "ref" THEN <<InitFail(p, k)>> ELSE <<>>], n) \o ch.evs
+                           \o (IF gaveUp /\ parts = {} THEN <<[k |-> "failed", p |-> p, old |-> FALSE]>> ELSE <<>>)
+             /\ Emit(<<[t |-> "send", p |-> p, n |-> n, fixed |-> (r = 0 \/ planted), handled |-> evq = <<>>, res |-> "ok"]>>
+                     \o CatTo([k \in 1..n |-> PartObs(p, k, ocs[k], nextId[k], 1)], n)
+                     \o (IF ch.part # 0 THEN PartObs(p, ch.part, ch.oc, nextId[ch.part], Cardinality(R)) ELSE <<>>))
+             /\ UNCHANGED <<saved, paid, nDup, nRestart, closed, confirmed, sentSince>>
+        ELSE /\ \A k \in 1..n : ocs[k] = "sent"    \* (canonical: a refused call asks no channel)
+             /\ Emit(<<[t |-> "send", p |-> p, n |-> n, fixed |-> (r = 0 \/ planted), handled |-> evq = <<>>, res |-> "dup"]>>)
+             /\ UNCHANGED <<dst, dparts, dn, evq, ticks, saved, dirty, net, nextId, decided, paid, nDup, nRestart, xvars>>
+     /\ H(op) /\ quiet' = FALSE
+     /\ F((IF accepted THEN {} ELSE {"send-refused"})
+          \cup (IF accepted /\ \E k \in 1..n : ocs[k] = "wip" THEN {"part-wip"} ELSE {})
+          \cup (IF accepted /\ R # {} THEN {"part-refused"} ELSE {})
+          \cup (IF accepted /\ R # {} /\ \E k \in 1..n : ocs[k] = "wip" THEN {"wip+refused"} ELSE {})
+          \cup (IF accepted /\ ch.part # 0 THEN {"immediate-retry"} ELSE {})
+          \cup (IF accepted /\ gaveUp /\ parts # {} THEN {"abandoned-with-parts-out"} ELSE {}))
+
+\* the user reports the monitor write of channel A-B_k complete: the HTLCs it held back leave A
+MComplete(k) ==
+  /\ Idle /\ \E p \in P : net[<<p, k>>].loc = "wip"
+  /\ net' = [x \in DOMAIN net |-> IF x[2] = k /\ net[x].loc = "wip" THEN [net[x] EXCEPT !.loc = "out"] ELSE net[x]]
+  /\ Emit(CatTo([p \in P |-> IF net[<<p, k>>].loc = "wip"
+                               THEN <<[t |-> "complete", chan |-> k, id |-> net[<<p, k>>].id],
+                                      [t |-> "add", node |-> 0, chan |-> k, id |-> net[<<p, k>>].id, hash |-> p, mult |-> net[<<p, k>>].mult]>>
+                               ELSE <<>>], NP))
+  /\ dirty' = TRUE /\ dch' = dch \cup {k}
+  /\ UNCHANGED <<dst, dparts, dn, evq, ticks, saved, nextId, decided, paid, nDup, nRestart, nSend, rleft, closed, confirmed, sentSince>>
+  /\ H([op |-> "complete", k |-> k]) /\ quiet' = FALSE /\ F({})
 
 \* the terminal events: abandon_payment / fail_htlc push PaymentFailed once no part remains
 MAbandon(p) ==
   /\ Idle /\ dst[p] = "retry"
   /\ IF dparts[p] = {}
-     THEN dst' = [dst EXCEPT ![p] = "gone"] /\ evq' = Append(evq, [k |-> "failed", p |-> p])
+     THEN dst' = [dst EXCEPT ![p] = "gone"] /\ evq' = Append(evq, [k |-> "failed", p |-> p, old |-> FALSE])
      ELSE dst' = [dst EXCEPT ![p] = "aband"] /\ UNCHANGED evq
   /\ UNCHANGED <<svars, obs, dparts, dn, ticks, saved, dirty, net, nextId, decided, paid, nDup, nRestart, nSend, xvars>>
   /\ H([op |-> "abandon", p |-> p]) /\ quiet' = FALSE /\ F(IF dparts[p] # {} THEN {"abandon-in-flight"} ELSE {})
@@ -140,8 +224,8 @@ MHandle ==
   /\ Idle /\ evq # <<>>
   /\ LET e == Head(evq) IN
      Emit(<<CASE e.k = "sent" -> [t |-> "evsent", p |-> e.p, fee |-> e.fee]
-              [] e.k = "failed" -> [t |-> "evfailed", p |-> e.p]
-              [] e.k = "pathfailed" -> [t |-> "evpathfailed", p |-> e.p, blamed |-> e.blamed, path |-> e.path]
+              [] e.k = "failed" -> [t |-> "evfailed", p |-> e.p, old |-> e.old]
+              [] e.k = "pathfailed" -> [t |-> "evpathfailed", p |-> e.p, blamed |-> e.blamed, path |-> e.path, initial |-> e.initial]
               [] OTHER -> [t |-> "evother"]>>)
   /\ evq' = Tail(evq)
   /\ sentSince' = (sentSince \/ Head(evq).k = "sent")
@@ -158,8 +242,9 @@ MTick ==
   /\ UNCHANGED <<svars, obs, dparts, dn, evq, saved, dirty, net, nextId, decided, paid, nDup, nRestart, nSend, xvars>>
   /\ H([op |-> "tick"]) /\ quiet' = FALSE /\ F({})
 
+NoWip == \A x \in DOMAIN net : net[x].loc # "wip"
 MSave ==
-  /\ Idle /\ nRestart < MaxRestart /\ closed = {}
+  /\ Idle /\ nRestart < MaxRestart /\ closed = {} /\ NoWip
   /\ saved' = [dst |-> dst, dparts |-> dparts, dn |-> dn, evq |-> evq, ticks |-> ticks]
   /\ dirty' = FALSE /\ dch' = {} /\ sentSince' = FALSE
   /\ Emit(<<[t |-> "save"]>>)
@@ -168,7 +253,7 @@ MSave ==
 
 \* restart from a snapshot the monitors have not moved past
 MRestart ==
-  /\ Idle /\ DOMAIN saved # {} /\ ~dirty /\ nRestart < MaxRestart /\ closed = {}
+  /\ Idle /\ DOMAIN saved # {} /\ ~dirty /\ nRestart < MaxRestart /\ closed = {} /\ NoWip
   /\ dst' = saved.dst /\ dparts' = saved.dparts /\ dn' = saved.dn /\ evq' = saved.evq /\ ticks' = saved.ticks
   /\ net' = [x \in DOMAIN net |-> IF net[x].loc = "dlvFul" THEN [net[x] EXCEPT !.loc = "retFul"]
                                   ELSE IF net[x].loc = "dlvFail" THEN [net[x] EXCEPT !.loc = "retFail"] ELSE net[x]]
@@ -183,7 +268,7 @@ MArrive(p, k) ==
   /\ Idle /\ net[<<p, k>>].loc = "out" /\ k \notin closed
   /\ net' = [net EXCEPT ![<<p, k>>].loc = "held", ![<<p, k>>].id2 = nextId[K + k]]
   /\ nextId' = [nextId EXCEPT ![K + k] = @ + 1]
-  /\ Emit(<<[t |-> "add", node |-> k, chan |-> K + k, id |-> nextId[K + k], hash |-> p]>>)
+  /\ Emit(<<[t |-> "add", node |-> k, chan |-> K + k, id |-> nextId[K + k], hash |-> p, mult |-> net[<<p, k>>].mult]>>)
   /\ dirty' = TRUE /\ dch' = dch \cup {k}     \* the commitment exchange that carries the HTLC to B_k updates A's monitor
   /\ UNCHANGED <<dst, dparts, dn, evq, ticks, saved, decided, paid, nDup, nRestart, nSend, rleft, closed, confirmed, sentSince>>
   /\ H([op |-> "arrive", p |-> p, k |-> k]) /\ quiet' = FALSE /\ F({})
@@ -197,10 +282,12 @@ MFailHop(p, k) ==
   /\ UNCHANGED <<dst, dparts, dn, evq, ticks, saved, nextId, decided, paid, nDup, nRestart, nSend, rleft, closed, confirmed, sentSince>>
   /\ H([op |-> "failhop", p |-> p, k |-> k]) /\ quiet' = FALSE /\ F({})
 
+RECURSIVE SumMult(_, _)
+SumMult(ks, p) == IF ks = {} THEN 0 ELSE LET k == CHOOSE x \in ks : TRUE IN net[<<p, k>>].mult + SumMult(ks \ {k}, p)
 \* D claims: only a complete set of parts (all-or-nothing recipient)
 MClaim(p) ==
   /\ Idle /\ decided[p] = "none" /\ dn[p] > 0
-  /\ Cardinality({k \in 1..K : net[<<p, k>>].loc = "held"}) = dn[p]
+  /\ SumMult({k \in 1..K : net[<<p, k>>].loc = "held"}, p) = dn[p]
   /\ decided' = [decided EXCEPT ![p] = "claim"]
   /\ net' = [x \in DOMAIN net |-> IF x[1] = p /\ net[x].loc = "held" THEN [net[x] EXCEPT !.loc = "retFul"] ELSE net[x]]
   /\ Emit(<<[t |-> "claimcall", hash |-> p]>>)
@@ -258,13 +345,16 @@ SentQueued(p) == \E i \in 1..Len(evq) : evq[i].p = p /\ evq[i].k = "sent"
 \* the next unused branch (a retry avoids the channel that failed)
 FreeBranch(p) == {j \in 1..K : net[<<p, j>>].loc = "no" /\ j \notin closed}
 MinOf(S) == CHOOSE x \in S : \A y \in S : x <= y
-MCommit(p, k) ==
+MCommit(p, k, roc) ==
   /\ Idle /\ net[<<p, k>>].loc \in {"dlvFul", "dlvFail"} /\ k \notin closed
+  \* roc: the answer of the branch a retry is sent over ("sent", or "wip": its monitor write is in flight)
+  /\ roc \in Outcomes \ {"ref"}
+  /\ (roc # "sent") => (net[<<p, k>>].loc = "dlvFail" /\ k \in dparts[p] /\ dst[p] = "retry" /\ rleft[p] > 0 /\ FreeBranch(p) # {})
   \* the monitor update that makes a fulfil irrevocable is held back until the user has handled PaymentSent
   /\ net[<<p, k>>].loc = "dlvFul" => ~SentQueued(p)
   /\ dirty' = TRUE
   /\ IF net[<<p, k>>].loc = "dlvFul"
-     THEN /\ paid' = paid + Amt + Fee
+     THEN /\ paid' = paid + net[<<p, k>>].mult * Amt + Fee
           /\ net' = [net EXCEPT ![<<p, k>>].loc = "done"]
           /\ IF k \in dparts[p] /\ dst[p] = "ful"
              THEN dparts' = [dparts EXCEPT ![p] = @ \ {k}] /\ evq' = Append(evq, [k |-> "pathok", p |-> p])
@@ -280,14 +370,14 @@ MCommit(p, k) ==
              THEN /\ dparts' = [dparts EXCEPT ![p] = @ \ {k}] /\ UNCHANGED <<evq, dst, rleft, nextId>> /\ Emit(<<>>) /\ dch' = dch \cup {k}
                   /\ net' = [net EXCEPT ![<<p, k>>].loc = "done"]
              ELSE LET left == dparts[p] \ {k}
-                      pf == [k |-> "pathfailed", p |-> p, blamed |-> Blamed(k, net[<<p, k>>].origin), path |-> Path(k)]
+                      pf == [k |-> "pathfailed", p |-> p, blamed |-> Blamed(k, net[<<p, k>>].origin), path |-> Path(k), initial |-> FALSE]
                   IN IF dst[p] = "retry" /\ rleft[p] > 0
                      THEN \* automatic retry (check_retry_payments in process_pending_htlc_forwards): a new HTLC
                           \* over the next unused branch, or PaymentFailed if there is no route left
                           /\ rleft' = [rleft EXCEPT ![p] = @ - 1]
                           /\ IF FreeBranch(p) = {}
                              THEN /\ dparts' = [dparts EXCEPT ![p] = left]
-                                  /\ IF left = {} THEN dst' = [dst EXCEPT ![p] = "gone"] /\ evq' = evq \o <<pf, [k |-> "failed", p |-> p]>>
+                                  /\ IF left = {} THEN dst' = [dst EXCEPT ![p] = "gone"] /\ evq' = evq \o <<pf, [k |-> "failed", p |-> p, old |-> FALSE]>>
                                                   ELSE dst' = [dst EXCEPT ![p] = "aband"] /\ evq' = Append(evq, pf)
                                   /\ net' = [net EXCEPT ![<<p, k>>].loc = "done"]
                                   /\ Emit(<<>>) /\ dch' = dch \cup {k} /\ UNCHANGED nextId
@@ -295,19 +385,21 @@ MCommit(p, k) ==
                                   /\ dparts' = [dparts EXCEPT ![p] = left \cup {j}]
                                   /\ evq' = Append(evq, pf) /\ UNCHANGED dst
                                   /\ net' = [net EXCEPT ![<<p, k>>].loc = "done",
-                                                         ![<<p, j>>] = [loc |-> "out", id |-> nextId[j], id2 |-> 0, origin |-> 0]]
+                                                         ![<<p, j>>] = [loc |-> IF roc = "sent" THEN "out" ELSE "wip", id |-> nextId[j], id2 |-> 0, origin |-> 0,
+                                                                        mult |-> net[<<p, k>>].mult]]
                                   /\ nextId' = [nextId EXCEPT ![j] = @ + 1]
                                   /\ dch' = dch \cup {k, j}
-                                  /\ Emit(<<[t |-> "add", node |-> 0, chan |-> j, id |-> nextId[j], hash |-> p]>>)
+                                  /\ Emit(PartObs(p, j, roc, nextId[j], net[<<p, k>>].mult))
                      ELSE /\ dparts' = [dparts EXCEPT ![p] = left]
                           /\ IF left = {}
-                             THEN dst' = [dst EXCEPT ![p] = "gone"] /\ evq' = evq \o <<pf, [k |-> "failed", p |-> p]>>
+                             THEN dst' = [dst EXCEPT ![p] = "gone"] /\ evq' = evq \o <<pf, [k |-> "failed", p |-> p, old |-> FALSE]>>
                              ELSE dst' = [dst EXCEPT ![p] = "aband"] /\ evq' = Append(evq, pf)
                           /\ net' = [net EXCEPT ![<<p, k>>].loc = "done"]
                           /\ Emit(<<>>) /\ dch' = dch \cup {k} /\ UNCHANGED <<rleft, nextId>>
   /\ UNCHANGED <<dn, ticks, saved, decided, nDup, nRestart, nSend, closed, confirmed, sentSince>>
-  /\ H([op |-> "commit", p |-> p, k |-> k]) /\ quiet' = FALSE
-  /\ F(IF net[<<p, k>>].loc = "dlvFail" /\ k \in dparts[p] /\ dst[p] = "retry" /\ rleft[p] > 0 THEN {"retry"} ELSE {})
+  /\ H([op |-> "commit", p |-> p, k |-> k, roc |-> roc]) /\ quiet' = FALSE
+  /\ F((IF net[<<p, k>>].loc = "dlvFail" /\ k \in dparts[p] /\ dst[p] = "retry" /\ rleft[p] > 0 THEN {"retry"} ELSE {})
+       \cup (IF roc = "wip" THEN {"retry-wip"} ELSE {}))
 
 \* ---------------------------------------------------------------- stale restart and the chain
 InMon == {"out", "held", "retFul", "retFail", "dlvFul", "dlvFail"}
@@ -317,11 +409,11 @@ FailParts(p, ks, st, parts) ==      \* -> [dst, parts, evs]
   IF ks = {} THEN [dst |-> st, parts |-> parts, evs |-> <<>>]
   ELSE LET k == MinOf(ks)
            left == parts \ {k}
-           pf == [k |-> "pathfailed", p |-> p, blamed |-> 0, path |-> Path(k)]
+           pf == [k |-> "pathfailed", p |-> p, blamed |-> 0, path |-> Path(k), initial |-> FALSE]
        IN IF st \in {"none", "gone"} \/ k \notin parts THEN FailParts(p, ks \ {k}, st, parts)
           ELSE IF st = "ful" THEN FailParts(p, ks \ {k}, st, left)
           ELSE IF left = {}
-               THEN [dst |-> "gone", parts |-> {}, evs |-> <<pf, [k |-> "failed", p |-> p]>>]
+               THEN [dst |-> "gone", parts |-> {}, evs |-> <<pf, [k |-> "failed", p |-> p, old |-> FALSE]>>]
                ELSE LET r == FailParts(p, ks \ {k}, "aband", left) IN [r EXCEPT !.evs = <<pf>> \o @]
 
 \* ChannelManager::read with monitors that are ahead of the manager
@@ -337,7 +429,7 @@ Reload(p, cl) ==
   IN FailParts(p, missing, st1, p1)
 
 MRestartStale ==
-  /\ Stale /\ Idle /\ DOMAIN saved # {} /\ dch # {} /\ nRestart < MaxRestart /\ closed = {}
+  /\ Stale /\ Idle /\ DOMAIN saved # {} /\ dch # {} /\ nRestart < MaxRestart /\ closed = {} /\ NoWip
   \* user behaviours of the recorded findings are left out: payment id used twice, PaymentSent handled since the snapshot
   /\ \A p \in Pids : pay[p].gen = 1
   /\ ~sentSince
@@ -366,7 +458,7 @@ MRestartStale ==
 MConfirm(k) ==
   /\ Idle /\ k \in closed /\ k \notin confirmed
   /\ confirmed' = confirmed \cup {k}
-  /\ Emit(<<[t |-> "chaincommit", chan |-> k, outs |-> IF \E p \in P : net[<<p, k>>].loc \in InMon THEN {Amt \div 1000} ELSE {}]>>)
+  /\ Emit(<<[t |-> "chaincommit", chan |-> k, outs |-> {(net[<<p, k>>].mult * Amt) \div 1000 : p \in {q \in P : net[<<q, k>>].loc \in InMon}}]>>)
   /\ UNCHANGED <<dst, dparts, dn, evq, ticks, saved, dirty, net, nextId, decided, paid, nDup, nRestart, nSend, rleft, dch, closed, sentSince>>
   /\ UNCHANGED <<hist, nops>> /\ quiet' = FALSE /\ F({})
 
@@ -400,7 +492,7 @@ MChainTimeout(p, k) ==
 \* every link up and empty, every event handled
 \* (once a channel was closed the chain settles: nothing stays behind on a closed channel, and what the
 \* recipient still holds is failed back when it expires)
-Moving == \/ \E x \in DOMAIN net : net[x].loc \in {"out", "retFul", "retFail", "dlvFul", "dlvFail"}
+Moving == \/ \E x \in DOMAIN net : net[x].loc \in {"out", "wip", "retFul", "retFail", "dlvFul", "dlvFail"}
           \/ closed # {} /\ \E x \in DOMAIN net : net[x].loc = "held"
           \/ closed # confirmed
 MQuiet ==
@@ -414,10 +506,12 @@ MDone == quiet /\ Idle /\ UNCHANGED mvars
 
 MCNext ==
   \/ MObs
-  \/ \E p \in P, n \in 1..K : MSend(p, n)
+  \/ \E p \in P, n \in 1..K : \E r \in RetryChoices(n), roc \in Outcomes, ocs \in [1..n -> Outcomes] : MSend(p, n, ocs, r, roc)
+  \/ \E k \in 1..K : MComplete(k)
   \/ \E p \in P : MAbandon(p) \/ MClaim(p) \/ MFailR(p)
   \/ MHandle \/ MTick \/ MSave \/ MRestart \/ MRestartStale
-  \/ \E p \in P, k \in 1..K : MArrive(p, k) \/ MFailHop(p, k) \/ MDeliver(p, k) \/ MDup(p, k) \/ MCommit(p, k)
+  \/ \E p \in P, k \in 1..K : MArrive(p, k) \/ MFailHop(p, k) \/ MDeliver(p, k) \/ MDup(p, k)
+  \/ \E p \in P, k \in 1..K, roc \in Outcomes : MCommit(p, k, roc)
   \/ \E k \in 1..K : MConfirm(k)
   \/ \E p \in P, k \in 1..K : MChainClaim(p, k) \/ MChainTimeout(p, k)
   \/ MQuiet \/ MDone
